@@ -22,7 +22,7 @@ IsNull(j) == "null" \in DOMAIN j
 SvcOf(j) == IF IsNull(j) THEN NULL ELSE Sv(j.type, j.ips, j.etp, Range(j.eps))
 Cluster(o) == [svcs |-> [s \in SpkSvcs |-> IF s \in DOMAIN o.cl.svcs THEN SvcOf(o.cl.svcs[s]) ELSE NULL],
                nodes |-> [n \in SpkNodes |-> o.cl.nodes[n]],
-               layout |-> o.cl.layout, members |-> Range(o.cl.members), ml |-> o.cl.ml]
+               layout |-> o.cl.layout, members |-> Range(o.cl.members), ml |-> o.cl.ml, ign |-> o.cl.ign]
 RankOf(o) == [a \in AllV4 \cup AllV6 |-> IF ToString(a) \in DOMAIN o.rank THEN o.rank[ToString(a)] ELSE Me]
 
 (* the configuration the speaker holds, in the form Routes needs *)
@@ -35,7 +35,8 @@ SeenMe(o) == IF Me \in DOMAIN o.seen THEN o.seen[Me] ELSE NULL
 RouteSet(po) == {[pfx |-> r.pfx, lp |-> r.lp, comms |-> Range(r.comms)] : r \in Range(po.routes)}
 SameWalk(j, k) == j >= 1 /\ Trace[j].w = Trace[k].w /\ Trace[j].n + 1 = Trace[k].n
 
-Settled(o) == HasCfg(o) /\ AnnB(o) \subseteq Range(o.since)
+(* ... and no handler call that failed is waiting to be retried *)
+Settled(o) == HasCfg(o) /\ AnnB(o) \subseteq Range(o.since) /\ o.errS = <<>>
 
 ----------------------------------------------------------------------------
 (* C05 *)
@@ -43,7 +44,9 @@ C05_SessionsExact(o) ==
   Settled(o) =>
     LET ld == LoadedOf(o) IN
     \A p \in DOMAIN o.peers :
-       /\ o.peers[p].up = PeerShouldRun([name |-> p, nsel |-> o.peers[p].nsel], SeenMe(o))
+       /\ (o.peers[p].up => PeerShouldRun([name |-> p, nsel |-> o.peers[p].nsel], SeenMe(o)))
+       \* a peer whose latest session start failed (injected) need not be up
+       /\ ((PeerShouldRun([name |-> p, nsel |-> o.peers[p].nsel], SeenMe(o)) /\ p \notin Range(o.sf)) => o.peers[p].up)
        /\ (o.peers[p].up => RouteSet(o.peers[p]) = Routes(ld, AnnB(o), IpsOf(o), p))
 
 (* a route offered before the step that no announced service produces any   *)
